@@ -19,11 +19,12 @@ CASE_TIMEOUT = {"quick": 400, "thorough": 600}
 ALIASES = ["explicit_euler", "euler", "forward_euler", "forward_explicit_euler", "generalized_rush_larsen", "forward_generalized_rush_larsen", "hybrid_rush_larsen", "rush_larsen"]
 RULE = (
     "2-3 generated models per case, biased to wide dependency graphs with many simultaneous ties (8-24 "
-    "intermediates with 2-5 dependencies each, names independent of dependency order) + a drawn history of "
+    "intermediates with 2-5 dependencies each, names independent of dependency order; later models reuse the "
+    "first model's names with freshly drawn dependencies half of the time) + a drawn history of "
     "10-25 operations: load model k, generate Python/C code for (model, options), get_scheme(alias), generate a "
     "scheme through a handle obtained earlier, repeat a key after other calls. The history is run in two fresh "
     "processes with different PYTHONHASHSEED (two of 0,1,2,3,seed-derived) and a canonical no-history baseline "
-    "(every key generated once, with a fresh get_scheme handle, in a third process with a third hash seed). "
+    "(every key generated once, with a fresh get_scheme handle, in one fresh process per model with a third hash seed). "
     "Oracle: per key (model, backend, options / alias) the sha256 of the emitted text is identical within a "
     "history, between the two processes and equal to the baseline. extra(): the repository's .ode models under "
     "4 hash seeds. Non-trivial = some model's dependency graph has >= 2 assignments ready at the same time and "
@@ -32,13 +33,20 @@ RULE = (
 ASSUMPTIONS = ["sha256 of the emitted text stands for the text", "fresh interpreter per run: /venv/bin/python -m vlib.histworker with PYTHONHASHSEED set"]
 
 
-def wide_model(draw):
-    ns = draw(st.integers(2, 5))
-    np_ = draw(st.integers(1, 5))
-    ni = draw(st.integers(8, 24))
-    names = draw(st.lists(st.sampled_from(G.SAFE_POOL), min_size=ns + np_ + ni, max_size=ns + np_ + ni, unique=True))
-    sn, pn, inn = names[:ns], names[ns : ns + np_], names[ns + np_ :]
-    G.case_twins(draw, [sn, pn, inn], names)
+def wide_model(draw, like=None):
+    """like: an earlier model whose NAMES are reused (same states / parameters / intermediates, freshly
+    drawn dependencies): anything remembered per name set instead of per model shows up"""
+    if like is not None:
+        sn, pn = X.state_names(like), X.param_names(like)
+        inn = X.intermediate_names(like)
+        ns, np_, ni = len(sn), len(pn), len(inn)
+    else:
+        ns = draw(st.integers(2, 5))
+        np_ = draw(st.integers(1, 5))
+        ni = draw(st.integers(8, 24))
+        names = draw(st.lists(st.sampled_from(G.SAFE_POOL), min_size=ns + np_ + ni, max_size=ns + np_ + ni, unique=True))
+        sn, pn, inn = names[:ns], names[ns : ns + np_], names[ns + np_ :]
+        G.case_twins(draw, [sn, pn, inn], names)
     ncomp = draw(st.integers(1, 3))
     comps = [""] if ncomp == 1 else draw(st.lists(st.sampled_from(G.COMPS), min_size=ncomp, max_size=ncomp, unique=True))
 
@@ -86,7 +94,9 @@ def strategy(tier):
     @st.composite
     def _s(draw):
         nm = draw(st.integers(2, 3))
-        models = [wide_model(draw) for _ in range(nm)]
+        models = [wide_model(draw)]
+        for _ in range(nm - 1):
+            models.append(wide_model(draw, like=models[0] if draw(st.booleans()) else None))
         nops = draw(st.integers(10, 25 if tier == "quick" else 40))
         ops = []
         nh = 0
@@ -169,8 +179,35 @@ def check_case(case):
         else:
             base_ops.append(op)
         base_keys.append((len(base_ops) - 1, k))
-    base = run_worker(texts, base_ops, hs[2])
-    baseline = {k: base[i] for i, k in base_keys}
+    # one fresh process PER MODEL: a baseline that generated another model earlier in the same
+    # process would share any history effect with the run it is compared to
+    from multiprocessing.pool import ThreadPool
+
+    groups = {}
+    for (i, k), op in zip(base_keys, [base_ops[i] for i, _ in base_keys]):
+        groups.setdefault(op[2] if op[0] == "scheme" else op[1], []).append((i, k))
+    baseline = {}
+    base = []
+
+    def run_group(item):
+        mi, members = item
+        ops_g, keys_g, nh_g = [], [], 0
+        for i, k in members:
+            op = base_ops[i]
+            if op[0] == "scheme":
+                ops_g.append(base_ops[i - 1])
+                ops_g.append(["scheme", nh_g, op[2], op[3]])
+                nh_g += 1
+            else:
+                ops_g.append(op)
+            keys_g.append((len(ops_g) - 1, k))
+        res = run_worker(texts, ops_g, hs[2])
+        return {k: res[j] for j, k in keys_g}, res
+
+    with ThreadPool(max(1, len(groups))) as tp:
+        for part, res in tp.map(run_group, sorted(groups.items())):
+            baseline.update(part)
+            base += res
     ctx = {"texts": texts, "ops": ops, "hashseeds": hs}
     if any("error" in r and "load" not in str(r) for r in base if isinstance(r, dict) and r.get("error", "").startswith(("SyntaxError", "Unexpected"))):
         raise Inconclusive("load-rejected")
